@@ -210,9 +210,11 @@ class Gen:
         if k < 0.86 and not self.in_def and d == 0 and self.loop_depth == 0 and self.in_begin == 0:
             if self.vars and r.random() < 0.5:
                 return ('%s ! %s' % (self.val(None, d), r.choice(self.vars)), 0)
-            v = self.fresh('v')
+            # now and then an existing name is declared again: earlier compiled references keep the old variable
+            v = r.choice(self.vars) if (self.vars and r.random() < 0.2) else self.fresh('v')
             s = '%s var %s' % (self.val(None, d), v)
-            self.vars.append(v)
+            if v not in self.vars:
+                self.vars.append(v)
             return (s, 0)
         if k < 0.89 and self.vars:
             return ('%s ! %s' % (self.val('int', d), r.choice(self.vars)), 0)
